@@ -62,7 +62,37 @@ def stmt_tok(s):
     raise ValueError(s)
 
 
+def expand(p):
+    """nested call arguments ('nest', h, args) are a spelling of `tmp = h(args); f(.., tmp, ..)` with a fresh local"""
+    def go(s, ctr):
+        k = s[0]
+        if k == "seq":
+            return ("seq", go(s[1], ctr), go(s[2], ctr))
+        if k == "call":
+            pre, args = [], []
+            for a in s[3]:
+                if isinstance(a, tuple) and a[0] == "nest":
+                    ctr[0] += 1
+                    tmp = ("L", 90 + ctr[0])
+                    pre.append(("call", tmp, a[1], list(a[2])))
+                    args.append(tmp)
+                else:
+                    args.append(a)
+            return seq(pre + [("call", s[1], s[2], args)])
+        if k == "if":
+            return ("if", s[1], go(s[2], ctr), go(s[3], ctr))
+        if k == "while":
+            return ("while", s[1], go(s[2], ctr))
+        return s
+    q = dict(p)
+    q["funcs"] = []
+    for fd in p["funcs"]:
+        q["funcs"].append(dict(fd, body=go(fd["body"], [0])))
+    return q
+
+
 def prog_line(p):
+    p = expand(p)
     out = ["P", str(len(p["ginit"]))] + ["1" if b else "0" for b in p["ginit"]] + [str(len(p["funcs"]))]
     for fd in p["funcs"]:
         out += ["F", str(fd["nparams"]), stmt_tok(fd["body"])]
@@ -108,6 +138,9 @@ def locals_of(s, acc=None):
     def v(x):
         if isinstance(x, tuple) and x[0] == "L":
             acc.add(x[1])
+        if isinstance(x, tuple) and x[0] == "nest":
+            for a in x[2]:
+                v(a)
 
     def c(cc):
         if cc[0] in ("nonnil",):
@@ -199,6 +232,8 @@ class Printer:
     def atom(self, a, k):
         if a == "nil":
             return "nil"
+        if isinstance(a, tuple) and a[0] == "nest":
+            return self.callexpr(a[1], a[2], k)
         if a == "new":
             return ["&%s{}", "new(%s)"][self.pick(2)] % self.T(k)
         return self.var(a, k)
@@ -212,7 +247,7 @@ class Printer:
         if fd.get("method"):
             # receiver = first argument; a nil literal receiver needs a typed conversion
             r = args[0]
-            rs = ("(*%s)(nil)" % self.T(k)) if r == "nil" else (("(&%s{})" % self.T(k)) if r == "new" else self.var(r, k))
+            rs = ("(*%s)(nil)" % self.T(k)) if r == "nil" else (("(&%s{})" % self.T(k)) if r == "new" else self.atom(r, k))
             return "%s.%s(%s)" % (rs, self.fname(f), ", ".join(self.atom(a, k) for a in args[1:]))
         return "%s%s(%s)" % (q, self.fname(f), ", ".join(self.atom(a, k) for a in args))
 
@@ -388,6 +423,12 @@ class Printer:
         def v(x):
             if isinstance(x, tuple) and x[0] == "G" and p["gpkg"][x[1]] != k:
                 deps.add(p["gpkg"][x[1]])
+            if isinstance(x, tuple) and x[0] == "nest":
+                fd = p["funcs"][x[1]]
+                if fd["pkg"] != k and not fd.get("method"):
+                    deps.add(fd["pkg"])
+                for a in x[2]:
+                    v(a)
 
         def c(cc):
             if cc[0] == "nonnil":
